@@ -197,9 +197,8 @@ def check(ctx):
     except (TranslationError, SyntaxError, OSError) as e:
         ctx.broke("translator: networkx_util.py no longer has a shape the translator reads (fail-closed)", str(e))
         return
-    scratch = "VERIF_REPO" in os.environ
-    gen_dir = GEN if not scratch else os.path.join(core.EVID, "gen")
-    os.makedirs(gen_dir, exist_ok=True)
+    scratch = True           # always compile in a directory private to this process (core.gen_dir): parallel checks must not share one
+    gen_dir = core.gen_dir()
     if scratch:
         import shutil
         shutil.copy(os.path.join(GEN, "TopoLink.v"), gen_dir)
